@@ -4,6 +4,7 @@ import ast
 import sympy as sp
 
 from ..kernels import expect_labels, K_labels, gather_table
+from ..astutil import dotted
 from ..stencil import SV, Lab, ClsSym, Gather, ARange, c, LabelMismatch
 from ..stencil_spec import Finding, check_one_elec, Cp, A, B
 from ..report import AnalysisError
@@ -55,6 +56,16 @@ def boys_rule(repo, R):
         return sp.gamma(interp.expr(call.args[0]))
 
     class E(Elem):
+        def on_if(self, st):
+            # `if np.any(mask):` around elementwise np.where(mask, ...) updates: the body is the identity where the mask is empty
+            t = st.test
+            if isinstance(t, ast.Call) and ((isinstance(t.func, ast.Attribute) and t.func.attr == "any" and not t.args)
+                                            or (dotted(t.func) or "") in ("np.any", "numpy.any", "any")) and not st.orelse:
+                for s_ in st.body:
+                    self.stmt(s_)
+                return
+            super().on_if(st)
+
         def mask_of(self, sl):
             mm = super().mask_of(sl)
             if mm is None and isinstance(sl, ast.Name):
@@ -315,6 +326,13 @@ def run(repo, R):
     check_nuc_wrapper(repo, g, R, inputs_rule=True)
     if len(R.findings) == n0:
         R.ok("NUC", g.site, "np.sum(point_charge_integral(basis, nuclear_coords, nuclear_charges, ...), axis=2)")
+    # the property is stated for Cartesian, spherical and mixed bases and with a transformation: the assembly of this operator's base
+    # class (norm once per index, own Cartesian->spherical matrix, segment-major blocks, transformation on every index) is part of it
+    from ..report import compose as _compose
+    from . import c09 as _c09
+    _bases = ('base_two_symm',)
+    _compose(R, "C09", _c09.run, repo, keep=lambda fd: any(b_ in (fd.where or "") or b_ in fd.site for b_ in _bases) or "spherical.py" in (fd.where or ""),
+             why="results for spherical / mixed / transformed bases are assembled by " + ", ".join(_bases))
     R.assumptions += ["Obara-Saika nuclear-attraction recurrences (Helgaker 9.10.26-27) and the horizontal recurrence as in DESIGN.md 2.2",
                       "the Boys function is uninterpreted apart from its arguments; scipy.special.hyp1f1 is 1F1", "assembly under C09"]
     return ("STENCIL + AXTYPE on the point-charge kernel chain for both orientations of the L_a >= L_b swap: the start value (Boys "
